@@ -22,6 +22,7 @@ META = {
                      "the NumPy in /venv is the supported NumPy"],
     "assumptions": ["window size k >= 1 (asserted by the constructor)"],
 }
+META["explanation"] += ' Also COPY (a copied window tracker owns its buffer and write position).'
 MIN_INSTANCES = {"NPAPI": 1, "RING": 2, "NAN": 4, "COPY": 1}
 CLS = "SlidingWindowTracker"
 AGG = {"mean": ("nanmean",), "var": ("nanvar",), "std": ("nanstd",)}
